@@ -19,7 +19,7 @@ def kill_specs(ctx, jdir):
     alpha = sessrun.alphabet(ctx)
     frames = [e for e in alpha if e["t"] == "frame"]
     sends = [e for e in alpha if e["t"] == "send"]
-    logon_in = next(e for e in frames if e["f"]["kind"] == "LOGON" and e["f"]["rel"] == 0)
+    logon_in = next(e for e in frames if e["f"]["kind"] == "LOGON" and e["f"]["rel"] == 0 and e["f"]["hdr"] == "ok")
     logon_out = next(e for e in sends if e["m"]["kind"] == "LOGON")
     app = next(e for e in sends if e["m"]["kind"] == "APP" and e["m"]["pay"] not in ("11=BADENC", "11=b"))
     rng = random.Random(ctx.seed * 13 + 9)
@@ -54,6 +54,8 @@ def run_kill(ctx, out):
             specs.append(dict(sp, kill_at=0))
             for k in range(1, b + 1):
                 specs.append(dict(sp, id="%s@%d" % (sp["id"], k), kill_at=k, jfile=sp["jfile"][:-3] + "_%d.db" % k))
+        if len(specs) - len(base) < len(base):
+            raise tlc.MachineryError("vacuity: only %d boundaries for %d (prefix, event) pairs" % (len(specs) - len(base), len(base)))
         ctx.log("kill points: %d (prefix, event) pairs, %d boundaries; executing one killed-and-restarted run per boundary" % (len(base), len(specs) - len(base)))
         recs += pmap(killrun.run, specs[len(base):])
     finally:
